@@ -1,6 +1,7 @@
 import PncProofs.SlabLemmas
 import PncProofs.BridgeLemmas
 import PncProofs.SlabReadLemmas
+import PncProofs.UamivReadEncode
 /-
 C13 — memory-mapped and record-based CAMx readers agree.
 
@@ -679,5 +680,66 @@ theorem exTemp_wf : TempWF exTemp 1 (19200, 1200) 1200 := by
   match i, h2 with
   | 0, _ => exact e0
   | 1, _ => exact e1
+
+/-! ### gridded average / instant files: the record reader (`uamiv/Read.py`) and the memory-mapped reader -/
+
+/-- **C13 (gridded files, at the level of the bytes).** For every file with standard header records whose time axis
+lies inside one day — whatever its data blocks hold, markers included — both readers open it and present the same
+counts and, for every (species, step, layer), the same words. -/
+theorem uamiv_readers_agree_words (ws : List Word) (nspec nx ny nz T : Nat) (d a s : Int)
+    (h : UamivRead.Std ws nspec nx ny nz T d a s) :
+    ∃ v m, UamivRead.read ws = some v ∧ Camx.decodeMM ws 0 = .ok m ∧
+      v.nspec = m.nspec ∧ v.nx = m.nx ∧ v.ny = m.ny ∧ v.nz = m.nz ∧ v.nt = m.steps.length ∧
+      v.data = UamivRead.bySpecies m :=
+  UamivRead.readers_agree_std ws nspec nx ny nz T d a s h
+
+/-- **C13 (gridded files, written content).** For every well-formed AVERAGE/INSTANT-like content whose steps (whole
+hours, odd or even) lie inside one day, both readers applied to the encoded file present exactly the content: counts,
+species names, and every slab. -/
+theorem uamiv_read_encode (f : Camx.Uamiv) (d a s : Int) (h : UamivRead.OneDay f d a s) :
+    UamivRead.read f.encode = some (UamivRead.recViewOf f) ∧ Camx.decodeMM f.encode 0 = .ok (Camx.viewOf f) :=
+  UamivRead.read_encode f d a s h
+
+/-- a 2-species, 1 x 2-cell, 2-layer file with two 2-hour steps from 03:00 -/
+def exUamiv : Camx.Uamiv where
+  name := [65, 86, 69, 82, 65, 71, 69, 32, 32, 32]
+  note := List.replicate 60 32
+  itzon := 0
+  ibdate := 19001
+  btime := f32OfNat 3
+  iedate := 19001
+  etime := f32OfNat 7
+  grid := [0, 0, 0, 0, 0, 0, 0, 2, 1, 2, 0, 0, 0, 0, 0]
+  species := [List.replicate 10 66, List.replicate 10 67]
+  steps := [⟨19001, f32OfNat 3, 19001, f32OfNat 5, [[[1, 2], [3, 4]], [[5, 6], [7, 8]]]⟩,
+            ⟨19001, f32OfNat 5, 19001, f32OfNat 7, [[[9, 10], [11, 12]], [[13, 14], [15, 16]]]⟩]
+
+/-- non-vacuity: the example meets the hypotheses, and the record reader model presents its content -/
+theorem exUamiv_oneDay : UamivRead.OneDay exUamiv 19001 3 2 where
+  wf := ⟨by decide, by decide, by decide, by decide, by decide⟩
+  asciiName := by decide
+  asciiNote := by decide
+  asciiSpecies := by decide
+  notE := by decide
+  notA := by decide
+  nspec1 := by decide
+  nspecS := by decide
+  nxS := by decide
+  nyS := by decide
+  nzS := by decide
+  nz1 := by decide
+  sd0 := by decide
+  st0 := by decide +kernel
+  ed0 := by decide
+  et0 := by decide +kernel
+  first := ⟨_, _, rfl, by decide +kernel⟩
+  s1 := by decide
+  a0 := by decide
+  aT := by decide
+
+example : (UamivRead.read exUamiv.encode).map (fun v => (v.nt, v.nz, v.data)) =
+    some (2, 2, [[[[1, 2], [3, 4]], [[9, 10], [11, 12]]], [[[5, 6], [7, 8]], [[13, 14], [15, 16]]]]) := by
+  rw [(uamiv_read_encode exUamiv 19001 3 2 exUamiv_oneDay).1]
+  rfl
 
 end Props.C13
